@@ -131,6 +131,21 @@ def fixed_tree(rng, violate=False):
     L = lg.gen_leaf(rng, cls=pick(rng, ['Device', 'CDevice', 'IDevice2']), n=n, zero_width='all', cbounds='none')
     L['id'] = 'f%d' % i
     kids.append({'kind': 'leaf', 'id': L['id'], 'leaf': L})
+  if rng.random() < .3:
+    # an all-fixed ADevice whose user constraints are handed over as ONE vector-valued constraint: every component counts (a large
+    # slack in one component must not hide a violated one)
+    A = lg.gen_leaf(rng, cls='ADevice', n=n, zero_width='all', cbounds='none', fn_depth=0)
+    A['id'], A['f'] = 'fa', ('null',)
+    x = [lo for lo, _ in A['bounds']]
+    dotx = lambda w: sum((a * b for a, b in zip(w, x)), F(0))
+    w1, w2 = [F(1)] * n, [F(j % 2) - F(1, 2) for j in range(n)]
+    A['ucons'] = [{'eq': False, 'w': w1, 'k': F(5) - dotx(w1), 'jac': True},
+                  {'eq': False, 'w': w2, 'k': (F(-1, 2) if violate else F(1, 4)) - dotx(w2), 'jac': True}]
+    # (the stacked form only where the optimiser is not consulted: the model counts one constraint per component)
+    A['ucon_stack'] = all(lo == hi for k in kids for lo, hi in k['leaf']['bounds']) and all(lo == hi for lo, hi in A['bounds'])
+    kids.append({'kind': 'leaf', 'id': 'fa', 'leaf': A})
+    if violate:
+      return {'kind': 'set', 'id': 'fs', 'kids': kids, 'sbounds': None, 'sb_kind': 'none'}
   if len(kids) == 1 and rng.random() < .5 and not violate:
     return kids[0]
   T = {'kind': 'set', 'id': 'fs', 'kids': kids, 'sbounds': None, 'sb_kind': 'none'}
@@ -183,7 +198,9 @@ def gen_fault_config(rng, i):
     # a warm start from elsewhere (the previous window's flow): the start point is a hint, the answer is the pinned point - or the
     # exception when the pinned point violates an aggregate bound, even if the hint itself satisfies every constraint
     M = tg.gen_matrix(rng, T)
-    if kind == 'fixed-infeasible':
+    if kind == 'fixed-infeasible' and not T.get('sbounds'):
+      pass      # infeasible through a user constraint: the start point stays inside the bounds
+    elif kind == 'fixed-infeasible':
       j = [k for k, (lo, hi) in enumerate(T['sbounds']) if hi - lo == 1][0]
       M = [list(r) for r in M]
       M[0][j] += F(3, 2)
